@@ -591,7 +591,8 @@ def lookback_rule(ctx, R, ea, methods):
     names = [x.id for x in ast.walk(low) if isinstance(x, ast.Name)]
     srcs = [a.value for a in walk_no_nested(fn) if isinstance(a, ast.Assign) and len(a.targets) == 1 and isinstance(a.targets[0], ast.Name) and a.targets[0].id in names]
     txt = ' ; '.join(u(x) for x in srcs)
-    if srcs and 'pool_mem' in txt and 'size' in txt and 'max(' in txt:
+    if srcs:
+        # (whatever the bound is computed from: it is evaluated on a pool holding a cell of the widest kind and judged by its value)
         # evaluate it on a pool holding a 128-bit and an 8-bit cell
         from ..consteval import Obj, Native
 
@@ -721,9 +722,24 @@ def lookup_key_rule(R, ea, methods):
     self.pool.pool_mem`, `self.pool.pool_mem[X]`, or X handed to a method whose parameter is looked up that way (find_mem_by_addr) - must therefore be simplified on
     every way it can reach the lookup: a local all of whose reaching assignments are expr_simp(..), a method of the class whose returns are, `.arg` of a stored cell,
     another such local.  `ptr = ptr + 1` inside the piece loop of a wide read-back is the classic slip: the first piece is found, every later one is not."""
-    TABLE = ('self.pool.pool_mem',)
+    TABLE0 = ('self.pool.pool_mem',)
+    cur = {'fn': None, 'names': TABLE0}
+
+    class _T(object):
+        def __contains__(self, txt):
+            return txt in cur['names']
+    TABLE = _T()
+
+    def enter(fn):
+        # locals of fn that are the table itself (`cells = self.pool.pool_mem`)
+        names = set(TABLE0)
+        for n in walk_no_nested(fn):
+            if isinstance(n, ast.Assign) and len(n.targets) == 1 and isinstance(n.targets[0], ast.Name) and u(n.value) in TABLE0:
+                names.add(n.targets[0].id)
+        cur['fn'], cur['names'] = fn, names
 
     def lookup_params(fn):
+        enter(fn)
         """indices (in the call's argument list) of the parameters fn looks up in the cell table itself"""
         ps = [a.arg for a in fn.args.args][1:]
         out = []
@@ -738,6 +754,7 @@ def lookup_key_rule(R, ea, methods):
 
     def uses(fn, is_lookup_method):
         """(node, key expression) for every lookup of the cell table in fn"""
+        enter(fn)
         own_params = set(a.arg for a in fn.args.args)
         for n in walk_no_nested(fn):
             key = None
@@ -801,6 +818,10 @@ def lookup_key_rule(R, ea, methods):
                                 if isinstance(ap, ast.Call) and isinstance(ap.func, ast.Attribute) and ap.func.attr == 'append' and u(ap.func.value) == n.iter.id and ap.args \
                                         and isinstance(ap.args[0], ast.Tuple) and k_ < len(ap.args[0].elts):
                                     defs.append((ap, ap.args[0].elts[k_]))
+                                # L = [(i, f(i)) for i in ..]
+                                if isinstance(ap, ast.Assign) and len(ap.targets) == 1 and u(ap.targets[0]) == n.iter.id and isinstance(ap.value, ast.ListComp) \
+                                        and isinstance(ap.value.elt, ast.Tuple) and k_ < len(ap.value.elt.elts):
+                                    defs.append((ap, ap.value.elt.elts[k_]))
             if not defs:
                 if e.id in [a.arg for a in fn.args.args]:
                     return 'the parameter %s of %s' % (e.id, fn.name)
